@@ -5,6 +5,9 @@
 (* hash equals the hash of the same block without the resubmission.  The specification      *)
 (* (Replay without deviations) says a known content is recognised whatever its encoding:    *)
 (* the resubmission must be rejected by CheckTx and must change nothing when delivered.     *)
+(* The same bytes are submitted once more in the block after the first resubmission was      *)
+(* delivered and refused (check2, deliver2, sameHash2; -2 = not attempted): whatever the     *)
+(* node recorded about the refused copy must not make it forget the execution.               *)
 EXTENDS Replay, Sequences, Json
 
 Trace == ndJsonDeserialize("trace.ndjson")
@@ -18,7 +21,9 @@ Report(name, ok) ==
 TraceInit == l = 1 /\ nviol = 0 /\ RInit
 TraceStep ==
   /\ l <= Len(Trace) /\ l' = l + 1 /\ UNCHANGED rvars
-  /\ nviol' = nviol + Report("NodeSurvives", Ev.check # -1 /\ Ev.deliver # -1)
+  /\ nviol' = nviol + Report("NodeSurvives", Ev.check # -1 /\ Ev.deliver # -1 /\ Ev.check2 # -1 /\ Ev.deliver2 # -1)
+                    + Report("SecondResubmissionRejectedByCheckTx", Ev.check2 # 0)
+                    + Report("SecondResubmissionHasNoEffect", Ev.check2 < 0 \/ Ev.deliver2 < 0 \/ Ev.sameHash2)
                     + Report("ResubmissionRejectedByCheckTx", Ev.check # 0)
                     + Report("ResubmissionHasNoEffect", Ev.check = -1 \/ Ev.deliver = -1 \/ Ev.sameHash)
 TraceSpec == TraceInit /\ [][TraceStep]_tvars
